@@ -22,6 +22,7 @@ SCALE = 10**8
 TUCKER = ("tucker", "nn_tucker", "nn_tucker_hals")
 RING = ("tr_als", "tr_als_sampled")
 CPF = ("nn_parafac", "nn_parafac_hals", "constrained_parafac")
+RAND = "rand_parafac"
 
 
 def qe(x):
@@ -61,7 +62,7 @@ LINE = [
 def execute(c):
     import tensorly as tl  # noqa
     from tensorly.decomposition import (tucker, non_negative_tucker, non_negative_tucker_hals, tensor_ring_als, tensor_ring_als_sampled,
-                                        non_negative_parafac, non_negative_parafac_hals, constrained_parafac)
+                                        non_negative_parafac, non_negative_parafac_hals, constrained_parafac, randomised_parafac)
     tid = c["id"]
     X = make_data(c)
     alg, cap, tol = c["alg"], c["cap"], c["tol"]
@@ -69,8 +70,8 @@ def execute(c):
     cb_true = []
     cb = None
     if c["cb"]:
-        def cb(dec, err):
-            cb_errs.append(float(err))
+        def cb(dec, err=None):
+            cb_errs.append(float("nan") if err is None else float(err))
             stop = c["cb_stop_at"] is not None and len(cb_errs) - 2 == c["cb_stop_at"]      # call 0 is the pre-loop one
             if stop:
                 cb_true.append(len(cb_errs) - 2)
@@ -98,6 +99,13 @@ def execute(c):
                 else:
                     _, errs = constrained_parafac(X, rk, n_iter_max=cap, tol_outer=tol, init=c["init"], random_state=c["seed"], verbose=True,
                                                   return_errors=True, cvg_criterion=cvg, non_negative=True, n_iter_max_inner=c.get("inner", 5))
+            elif alg == RAND:
+                import warnings
+                with warnings.catch_warnings():
+                    warnings.simplefilter("ignore")
+                    rk = c["rank"] if isinstance(c["rank"], int) else c["rank"][0]
+                    _, errs = randomised_parafac(X, rk, c.get("n_samples", 20), n_iter_max=cap, init=c["init"], tol=tol, max_stagnation=c.get("maxstag", 0),
+                                                 random_state=c["seed"], verbose=True, return_errors=True, callback=cb)
             elif alg == "tr_als":
                 tensor_ring_als(X, c["rank"], n_iter_max=cap, tol=tol, random_state=c["seed"], verbose=True, callback=cb, ls_solve=c.get("ls_solve", "lstsq"))
                 errs = cb_errs[1:] if c["cb"] else None
@@ -152,9 +160,17 @@ def execute(c):
         dec = errs[k - 1] - errs[k]
         signed = alg in RING or (alg in CPF and bool(c.get("signed")))
         below.append(bool(tol) and bool(dec < tol if signed else abs(dec) < tol))
-    call = {"id": tid + "/call", "tr": tid, "ev": "Call",
+    improved, min_error = [], 0
+    if alg == RAND:
+        for e_ in errs:
+            imp = (not min_error) or e_ < min_error
+            if imp:
+                min_error = e_
+            improved.append(bool(imp))
+    call = {"id": tid + "/call", "tr": tid, "ev": "Call", "improved": improved,
             "cfg": {"alg": alg, "cap": cap, "tol": bool(tol), "cb": bool(c["cb"]), "cbstops": bool(c["cb"]) and c["cb_stop_at"] is not None,
-                    "signed": alg in RING or (alg in CPF and bool(c.get("signed")))},
+                    "signed": alg in RING or (alg in CPF and bool(c.get("signed"))),
+                    "maxstag": int(c.get("maxstag", 0)) if alg == RAND else 0},
             "errs": [qe(e) for e in errs], "n_errs": n_errs, "n_cb": len(cb_errs), "cb_true_at": cb_true[0] if cb_true else -1, "below": below, "out": out, "exc": exc}
     return [call] + events + [{"id": tid + "/end", "tr": tid, "ev": "Return" if out == "ok" else "Raise", "exc": exc}]
 
@@ -201,14 +217,23 @@ def configs(tier, seed):
         for j in range(12 if thorough else 5):
             add(alg=alg, cap=[40, 25, 60][j % 3], tol=[1e-3, 1e-6, 1e-1, 0.5, 1e-10][j % 5], signed=j % 2 == 1, rank=[2, 3][j % 2], init=["svd", "random"][j % 2],
                 data=["lowrank", "noisy", "generic"][j % 3], shape=[[4, 5, 3], [5, 4], [3, 4, 2, 3]][j % 3], inner=[5, 1, 10][j % 3])
+    for cap in caps + (30,):
+        for tol in (0, 1e-300, 1e-2):
+            for ms in (0, 1, 3):
+                for cbk in ("none", "never", "stops"):
+                    if (len(cfgs) + cap) % 2 and cap not in (0, 3, 30):
+                        continue
+                    add(alg=RAND, cap=cap, tol=tol, maxstag=ms, rank=2, init=["svd", "random"][len(cfgs) % 2], cb=cbk != "none",
+                        cb_stop_at=int(rng.randint(0, max(1, cap))) if cbk == "stops" else None, data=["generic", "lowrank", "noisy"][len(cfgs) % 3],
+                        n_samples=[20, 8, 40][len(cfgs) % 3])
     for j in range(200 if thorough else 30):
-        alg = (TUCKER + RING + CPF)[int(rng.randint(0, 8))]
+        alg = (TUCKER + RING + CPF + (RAND,))[int(rng.randint(0, 9))]
         cap = int(rng.randint(0, 20))
-        cbk = ["none", "never", "stops"][int(rng.randint(0, 3))] if alg.startswith("tr_") else "none"
+        cbk = ["none", "never", "stops"][int(rng.randint(0, 3))] if alg.startswith("tr_") or alg == RAND else "none"
         add(alg=alg, cap=cap, tol=[0, 1e-300, 1e-4, 1e-2, 0.3][int(rng.randint(0, 5))], init=["svd", "random"][int(rng.randint(0, 2))],
             data=["generic", "lowrank", "noisy"][int(rng.randint(0, 3))], cb=cbk != "none",
             cb_stop_at=int(rng.randint(0, max(1, cap))) if cbk == "stops" else None, signed=bool(rng.rand() < 0.5),
-            **({"rank": 2} if alg in CPF else {}))
+            **({"rank": 2} if alg in CPF + (RAND,) else {}), maxstag=int(rng.randint(0, 4)) if alg == RAND else 0)
     return cfgs
 
 
